@@ -2,17 +2,109 @@
 package main
 
 import (
+	"encoding/hex"
 	"fmt"
+	"time"
+
 	"os"
+	"os/exec"
+	"verif/harness/internal/storectl"
+
+	"verif/harness/internal/crashfs"
 
 	"github.com/ozontech/seq-db/seq"
 
 	"verif/harness/internal/fracbuild"
 )
 
-func main() {
+func ctl() {
 	dir, _ := os.MkdirTemp("", "verif-smoke-")
 	defer os.RemoveAll(dir)
+	data := dir + "/data"
+	os.MkdirAll(data, 0o755)
+	st, err := storectl.Start(data)
+	if err != nil {
+		panic(err)
+	}
+	must := func(r storectl.Resp, err error) storectl.Resp {
+		if err != nil {
+			panic(err)
+		}
+		return r
+	}
+	must(st.Call(storectl.Req{Op: "open", Dir: data}))
+	must(st.Call(storectl.Req{Op: "bulk", Docs: []storectl.Doc{{MID: 1000, RID: 1, BodyHex: hex.EncodeToString([]byte(`{"a":"x"}`)), Tokens: []string{"k:x"}}}}))
+	must(st.Call(storectl.Req{Op: "bulk", Docs: []storectl.Doc{{MID: 2000, RID: 2, BodyHex: hex.EncodeToString([]byte(`{"a":"y"}`)), Tokens: []string{"k:y"}}}}))
+	fmt.Println(must(st.Call(storectl.Req{Op: "seal"})).Fracs)
+	tr, err := st.Close()
+	if err != nil {
+		panic(err)
+	}
+	fmt.Println("ops:", len(tr.Ops), "verify:", tr.Verify())
+	t0 := time.Now()
+	for k := 0; k <= len(tr.Ops); k++ {
+		d := fmt.Sprintf("%s/crash%d", dir, k)
+		if err := tr.StateAt(k).Materialize(d); err != nil {
+			panic(err)
+		}
+		c, err := storectl.Start("")
+		if err != nil {
+			panic(err)
+		}
+		_, oerr := c.Call(storectl.Req{Op: "open", Dir: d})
+		var got []string
+		if oerr == nil {
+			r, ferr := c.Call(storectl.Req{Op: "fetch", IDs: [][2]uint64{{1000, 1}, {2000, 2}}})
+			if ferr != nil {
+				got = []string{"fetch error: " + ferr.Error()}
+			}
+			for _, h := range r.DocsHex {
+				b, _ := hex.DecodeString(h)
+				got = append(got, string(b))
+			}
+		} else {
+			got = []string{"open failed: " + oerr.Error()[:80]}
+		}
+		c.Close()
+		op := "end"
+		if k < len(tr.Ops) {
+			op = tr.Ops[k].String()
+		}
+		fmt.Printf("crash before op %d (%s): %q\n", k, op, got)
+	}
+	fmt.Println("restarts/s:", float64(len(tr.Ops)+1)/time.Since(t0).Seconds())
+}
+
+func main() {
+	storectl.MaybeChild()
+	if len(os.Args) > 1 && os.Args[1] == "-ctl" {
+		ctl()
+		return
+	}
+	if len(os.Args) > 1 && os.Args[1] == "-trace" {
+		// self-test of the crash-state builder: run this program under strace and compare the rebuilt
+		// final state with the directory on disk
+		dir, _ := os.MkdirTemp("", "verif-smoke-")
+		defer os.RemoveAll(dir)
+		cmd := exec.Command(os.Args[0])
+		cmd.Env = append(os.Environ(), "VERIF_SMOKE_DIR="+dir)
+		cmd.Stdout = os.Stderr
+		tr, cerr, err := crashfs.Run(dir, cmd)
+		fmt.Println("child:", cerr, "trace:", err)
+		if err != nil {
+			os.Exit(1)
+		}
+		for i, o := range tr.Ops {
+			fmt.Println(i, o)
+		}
+		fmt.Println("verify:", tr.Verify())
+		return
+	}
+	dir := os.Getenv("VERIF_SMOKE_DIR")
+	if dir == "" {
+		dir, _ = os.MkdirTemp("", "verif-smoke-")
+		defer os.RemoveAll(dir)
+	}
 	fm, err := fracbuild.NewFM(dir, nil)
 	if err != nil {
 		panic(err)
@@ -43,6 +135,7 @@ func main() {
 		}
 	}
 	show("active")
+	fmt.Println("@@before-seal")
 	fracbuild.Seal(fm)
 	show("sealed")
 	fracbuild.Close(fm)
